@@ -124,11 +124,12 @@ class Calibration(TorchFunctionMode):
             input = input[0]
             if isinstance(input, QBytesTensor):
                 # Just adopt the maximum scale of the input
-                module.input_scale = torch.max(input._scale)
+                module.input_scale = torch.max(input._scale).detach()
             else:
                 # Evaluate the best scale
                 input_scale = absmax_scale(input, module.activation_qtype)
-                module.input_scale = _updated_scale(module.input_scale, input_scale, self.momentum)
+                # The scales are statistics: they must not keep the graph of the batch they were evaluated on
+                module.input_scale = _updated_scale(module.input_scale, input_scale, self.momentum).detach()
             return input
 
     def calibrate_output(
@@ -144,7 +145,7 @@ class Calibration(TorchFunctionMode):
                 qoutput = qoutput.dequantize()
             # Evaluate the optimal scale per-tensor and update output scale
             output_scale = absmax_scale(qoutput, module.activation_qtype, axis=None)
-            module.output_scale = _updated_scale(module.output_scale, output_scale, self.momentum)
+            module.output_scale = _updated_scale(module.output_scale, output_scale, self.momentum).detach()
             # Re-evaluate output with the correct output scale
             output = module.forward(input[0])
             if isinstance(output, QBytesTensor):
